@@ -190,6 +190,12 @@ fn plan_renames_with_conflicts_and_params(
 
         let path = entry.path();
 
+        // A name that is not valid UTF-8 cannot be written into the plan or the history, and
+        // rebuilding it from its lossy text would change bytes that are not part of the term
+        if path.to_str().is_none() {
+            continue;
+        }
+
         // Apply include/exclude filters (use relative path for matching)
         let relative_path = path.strip_prefix(root).unwrap_or(path);
 
